@@ -406,6 +406,7 @@ func (st *Runtime) executeList(list *ListNode) (returnValue reflect.Value) {
 
 	for i := 0; i < len(list.Nodes); i++ {
 		node := list.Nodes[i]
+		var ret reflect.Value // value returned by the lists executed for this node, if any
 		switch node.Type() {
 
 		case NodeText:
@@ -455,9 +456,9 @@ func (st *Runtime) executeList(list *ListNode) (returnValue reflect.Value) {
 			}
 
 			if isTrue(st.evalPrimaryExpressionGroup(node.Expression)) {
-				returnValue = st.executeList(node.List)
+				ret = st.executeList(node.List)
 			} else if node.ElseList != nil {
-				returnValue = st.executeList(node.ElseList)
+				ret = st.executeList(node.ElseList)
 			}
 			if isLet {
 				st.releaseScope()
@@ -501,7 +502,7 @@ func (st *Runtime) executeList(list *ListNode) (returnValue reflect.Value) {
 
 			indexValue, rangeValue, end := ranger.Range()
 			if !end {
-				for !end && !returnValue.IsValid() {
+				for !end && !returnValue.IsValid() && !ret.IsValid() {
 					if isSet {
 						if isLet {
 							if keyVarSlot >= 0 {
@@ -522,11 +523,11 @@ func (st *Runtime) executeList(list *ListNode) (returnValue reflect.Value) {
 					if valVarSlot < 0 {
 						st.context = indirectEface(rangeValue)
 					}
-					returnValue = st.executeList(node.List)
+					ret = st.executeList(node.List)
 					indexValue, rangeValue, end = ranger.Range()
 				}
 			} else if node.ElseList != nil {
-				returnValue = st.executeList(node.ElseList)
+				ret = st.executeList(node.ElseList)
 			}
 			cleanup()
 			st.context = context
@@ -535,7 +536,7 @@ func (st *Runtime) executeList(list *ListNode) (returnValue reflect.Value) {
 			}
 		case NodeTry:
 			node := node.(*TryNode)
-			returnValue = st.executeTry(node)
+			ret = st.executeTry(node)
 		case NodeYield:
 			node := node.(*YieldNode)
 			if node.IsContent {
@@ -558,10 +559,14 @@ func (st *Runtime) executeList(list *ListNode) (returnValue reflect.Value) {
 			st.executeYieldBlock(block, block.Parameters, block.Parameters, block.Expression, block.Content)
 		case NodeInclude:
 			node := node.(*IncludeNode)
-			returnValue = st.executeInclude(node)
+			ret = st.executeInclude(node)
 		case NodeReturn:
 			node := node.(*ReturnNode)
 			returnValue = st.evalPrimaryExpressionGroup(node.Value)
+		}
+		if ret.IsValid() {
+			// a list that executed no return does not erase an earlier return value
+			returnValue = ret
 		}
 	}
 
